@@ -566,6 +566,21 @@ pub fn run(thorough: bool, seed: u64, driver: &str, rep: &mut Report) {
             }
         }
     }
+    // a fallible writer on a device that opens but refuses data: an error value, never Ok
+    if std::path::Path::new("/dev/full").exists() {
+        for n in [2usize, 6, 30] {
+            let taxa: Vec<String> = (0..n).map(|i| format!("s{i}")).collect();
+            let m = phylotree::distance::DistanceMatrix::new(taxa, &vec![1.5f64; n * (n - 1) / 2]);
+            for square in [true, false] {
+                rep.case(&format!("matrix :: to_file(/dev/full, square={square}) size {n}"), true);
+                match guarded(AssertUnwindSafe(|| m.to_file(std::path::Path::new("/dev/full"), square).is_ok())) {
+                    Err(_) => rep.oracle("no-panic", "matrix.to_file@full-device", &format!("call: DistanceMatrix::to_file(/dev/full) size {n} square={square}"), "panic"),
+                    Ok(true) => rep.oracle("io-error", "matrix.to_file-on-a-full-device-reported-success", &format!("call: DistanceMatrix::to_file(/dev/full) size {n} square={square}"), "Ok(())"),
+                    Ok(false) => {}
+                }
+            }
+        }
+    }
     let mc = matrix_calls();
     rep.count_n("matrix_calls", mc.len() as u64);
     for (f, arg, c) in mc.iter() {
